@@ -162,6 +162,9 @@ func (ex *Exec) prim(fn *ssa.Function, args []Value) (Value, bool) {
 		// real-valued comparison helper: returns whether it equals the integer y
 		panic("vpExpOf: not implemented")
 	case "vpShuffle":
+		if i, ok := args[0].(Iface); ok {
+			args[0] = i.V
+		}
 		m := args[0].(*Map)
 		if m == nil || len(m.E) < 2 {
 			return nil, true
@@ -290,7 +293,7 @@ func (ex *Exec) assert(label string, cond *smt.Term) {
 		if !cached {
 			ex.findings = append(ex.findings, &Finding{Label: label, Kind: "assert", Pos: ex.curPos,
 				Msg: "assertion can fail: " + cond.String(), Model: model, Solver: who,
-				Decisions: append([]int{}, ex.taken...)})
+				Decisions: append([]int{}, ex.taken...), Trace: lastN(ex.trace, 60)})
 		}
 		// continue on the side where the assertion holds (if any)
 		if cond.IsFalse() || !ex.feasible(cond) {
@@ -317,7 +320,7 @@ func (ex *Exec) reportPanic(pe pathEnd) {
 	switch res {
 	case smt.Sat:
 		ex.findings = append(ex.findings, &Finding{Label: "no-panic", Kind: "panic", Pos: pe.Pos, Msg: pe.Msg,
-			Model: model, Solver: who, Decisions: append([]int{}, ex.taken...)})
+			Model: model, Solver: who, Decisions: append([]int{}, ex.taken...), Trace: lastN(ex.trace, 60)})
 	case smt.Unknown:
 		ex.inconclusive = append(ex.inconclusive, fmt.Sprintf("panic path @%s: %s", pe.Pos, note))
 	}
@@ -340,4 +343,11 @@ func (p *Program) ResetFinals() {
 	p.finalMu.Lock()
 	p.finals = map[string]smt.Result{}
 	p.finalMu.Unlock()
+}
+
+func lastN(s []string, n int) []string {
+	if len(s) > n {
+		s = s[len(s)-n:]
+	}
+	return append([]string{}, s...)
 }
